@@ -81,6 +81,12 @@ def cases(tier: str, seed: int) -> List[Dict[str, Any]]:
             for red in ("mean", "sum"):
                 out.append({"op": "cross_entropy", "V": v, "mult": m, "reduction": red, "uniform": False, "seed": seed})
             out.append({"op": "cross_entropy", "V": v, "mult": m, "reduction": "mean", "uniform": True, "seed": seed})
+            if m in (1.0, 0.5, 4.0):
+                # padding labels: a fraction of the targets equals ignore_index (default -100, or a class id chosen by
+                # the caller); the rows that DO receive a gradient keep unit scale (exactly 1 for uniform logits)
+                for frac, ii in ((0.25, None), (0.5, None), (0.75, 0)):
+                    out.append({"op": "cross_entropy", "V": v, "mult": m, "reduction": "mean", "uniform": False, "ignored": frac, "ignore_index": ii, "seed": seed})
+                    out.append({"op": "cross_entropy", "V": v, "mult": m, "reduction": "mean", "uniform": True, "ignored": frac, "ignore_index": ii, "seed": seed})
             if v <= 1000:
                 # the same targets given as one-hot class probabilities (a valid F.cross_entropy form; same gradient)
                 for red in ("mean", "sum"):
@@ -186,8 +192,21 @@ def run_case(case: Dict[str, Any]) -> Dict[str, Any]:
             t = torch.randint(0, V, (n,), generator=g)
             if case.get("onehot"):
                 t = torch.nn.functional.one_hot(t, V).to(torch.float64)
-            loss = U.cross_entropy(x, t, reduction=case["reduction"], mult=case["mult"])
+            kw_ce: Dict[str, Any] = {}
+            if case.get("ignored"):
+                ii = case.get("ignore_index")
+                drop = torch.arange(n) % 4 < int(round(case["ignored"] * 4))
+                if ii is None:
+                    t = torch.where(drop, torch.full_like(t, -100), t)
+                else:
+                    t = torch.where(drop, torch.full_like(t, ii), torch.where(t == ii, torch.full_like(t, (ii + 1) % V), t))
+                    kw_ce["ignore_index"] = ii
+            loss = U.cross_entropy(x, t, reduction=case["reduction"], mult=case["mult"], **kw_ce)
             (gx,) = torch.autograd.grad(loss, x)
+            if case.get("ignored"):
+                if bool((gx[drop] != 0).any()):
+                    viol.append({"key": f"{op}|ignored_target_receives_gradient", "msg": f"V={V} mult={case['mult']} ignored={case['ignored']}"})
+                gx = gx[~drop]
             if case["uniform"]:
                 check("grad_rms_uniform_logits", rms(gx), 1 - 1e-9, 1 + 1e-9)
             else:
